@@ -120,7 +120,7 @@ class Run:
                                      'observed': obs[s['id']].get('obs', [])[:2]})
         seen = set()
         for v in verdicts:
-            if v['why'] == 'UNDECIDED':
+            if v['why'].startswith('UNDECIDED'):
                 raise MachineryFailure('scenario %s left the modelled subset (generator bug): %s' %
                                        (v['id'], json.dumps(byid[v['id']]['steps'])[:1500]))
             if (v['id'], v['why']) in seen:
@@ -294,6 +294,29 @@ def c16(r):
     r.exhaustive = True
     r.extra['bounds'] = 'all histories of length %d over 2 modules, 3 contexts (trusted, untrusted, clone of either)' % (3 if r.quick else 4)
     r.conform(scs, trace_module='Trace_C16', trace_cfg='Trace_C16.cfg', workers=16)
+
+
+@prop('C15')
+def c15(r):
+    r.assumptions += ['preconditions taken as documented or implied: handles are used only while alive; an executable/expression is used only '
+                      'with the symbol table it was compiled against (not after bloc_ctx_purge of its context); bloc_execute2 only with a clone taken '
+                      'after the executable was compiled; a value given to bloc_ctx_store_variable is only freed afterwards; '
+                      'every API-stored name keeps one type for the whole history',
+                      'memory verdict: LeakSanitizer recoverable leak check after the caller released every handle, AddressSanitizer/UBSan during the calls',
+                      'values are observed only through the typed accessors of bloc_capi.h']
+    r.mc('Gen_C15', 'MC_C15.cfg', 'handle machine: every reachable state within the bound keeps library-owned pointers inside live contexts, every enabled call '
+         'touches only live handles, and the documented release calls always apply and leave nothing owned',
+         env={'MC_LEN': '2' if r.quick else '3'}, timeout=3000)
+    num = 400 if r.quick else 4000
+    ln = 16 if r.quick else 24
+    # one worker: TLC's RandomElement draws the same sequence in every worker thread
+    scs = r.gen('Gen_C15', 'Gen_C15.cfg', env={'GEN_LEN': str(ln)}, workers=1, timeout=3000,
+                extra=['-simulate', 'num=%d' % num, '-depth', '80', '-seed', str(r.seed)])
+    r.exhaustive = False
+    r.extra['bounds'] = ('%d random walks x 3 cut lengths (<= %d calls + release) over 22 kinds of call, 43 program texts (27 rejected by the parser, 5 failing at run time), '
+                         '17 expression texts, 16 value kinds, 2 contexts (original + clone), 3/2/2/2 value/pointer/executable/expression handles' % (num, ln))
+    r.conform(scs, trace_module='Trace_C15', trace_cfg='Trace_C15.cfg', workers=16, batch=1,
+              env={'VDRIVE_LEAKCHECK': '1', 'ASAN_OPTIONS': 'detect_leaks=1:abort_on_error=0:halt_on_error=1:allocator_may_return_null=1:fast_unwind_on_malloc=0'})
 
 
 @prop('C17')
